@@ -288,13 +288,58 @@ def rules(cs, g):
     k1 = n()
     forms = ['f(%s=1, %s)' % (k1, a), 'f(x, %s=1, %s, y)' % (k1, a), 'f(**k, %s)' % a, 'g(h(%s=1, %s))' % (k1, a)]
     t = cs.pick(forms)
-    out.append(('R18_positional_after_keyword', 'expr', t, span_of(t, a, 0) if t.startswith('f(**') else (t.index(a, t.index('=1, ') + 4), t.index(a, t.index('=1, ') + 4) + len(a)),
-                lambda e: lex(e, 'PositionalArgumentError'), False))
+    r18span = span_of(t, a, 0) if t.startswith('f(**') else (t.index(a, t.index('=1, ') + 4), t.index(a, t.index('=1, ') + 4) + len(a))
+
+    def arglist(kind):
+        """a call's argument list from its grammar with one offender (named OFF / *OFF / a repeated keyword) -> (text, span of the offender)"""
+        items = ['x%d' % i for i in range(cs.choice(3))]                        # positional
+        if cs.bool(60):
+            items.append('*it0')
+        kws = ['kw%d' % i for i in range(1 + cs.choice(3))]
+        mid = [k + '=' + cs.pick(['1', 'None', 'y']) for k in kws]
+        if cs.bool(80):
+            mid.insert(cs.choice(len(mid) + 1), '*it1')                        # iterable unpacking among keywords is fine
+        has_dstar = kind == 'R19' or cs.bool(90)
+        if has_dstar:
+            lo = mid.index('*it1') + 1 if '*it1' in mid else 0                  # (never in front of an iterable unpacking: that is rule R19)
+            mid.insert(lo + cs.choice(len(mid) - lo + 1), '**m0')
+        if kind == 'R18':
+            off = 'OFF'
+            fk = min(i for i, m in enumerate(mid) if not m.startswith('*it'))   # the first keyword / ** item
+            pos = fk + 1 + cs.choice(len(mid) - fk)
+        elif kind == 'R19':
+            off = '*OFF'
+            fk = mid.index('**m0')
+            pos = fk + 1 + cs.choice(len(mid) - fk)
+        else:
+            off = kws[0] + '=2'
+            fk = min(i for i, m in enumerate(mid) if m.startswith(kws[0] + '='))
+            pos = fk + 1 + cs.choice(len(mid) - fk)
+        mid.insert(pos, off)
+        body = ', '.join(items + mid) + (',' if cs.bool(40) else '')
+        host = cs.pick(['f(%s)', 'g(h(%s))', 'a.b(%s)', 'f(1)(%s)', 'class C(%s): pass\n', '@d(%s)\ndef g(): pass\n'])
+        txt = host % body
+        start = txt.index(body) + len(', '.join(items + mid[:pos]))
+        start += 2 if (items or pos) else 0
+        return txt, (start, start + len(off)), ('stmt' if txt.endswith('\n') else 'expr')
+    if cs.bool(150):
+        t, r18span, _k = arglist('R18')
+        out.append(('R18_positional_after_keyword', _k, t, r18span, lambda e: lex(e, 'PositionalArgumentError'), False))
+    else:
+        out.append(('R18_positional_after_keyword', 'expr', t, r18span, lambda e: lex(e, 'PositionalArgumentError'), False))
     t = cs.pick(['f(**k, *%s)' % n(), 'f(x, **k, *%s)' % n(), 'f(**k, y=1, *%s)' % n()])
-    out.append(('R19_star_after_double_star', 'expr', t, (t.index(', *') + 2, len(t) - 1), lambda e: lex(e, 'UnpackedArgumentError'), False))
+    if cs.bool(150):
+        t, sp19, _k = arglist('R19')
+        out.append(('R19_star_after_double_star', _k, t, sp19, lambda e: lex(e, 'UnpackedArgumentError'), False))
+    else:
+        out.append(('R19_star_after_double_star', 'expr', t, (t.index(', *') + 2, len(t) - 1), lambda e: lex(e, 'UnpackedArgumentError'), False))
     t = cs.pick(['f(%s=1, %s=2)', 'f(x, %s=1, *y, %s=2)', 'f(%s=1, **k, %s=2)', 'g(h(%s=1, %s=2))', 'class C(B, %s=1, %s=2): pass\n'])
     t = t % (k1, k1)
-    out.append(('R20_repeated_keyword', 'stmt' if t.startswith('class') else 'expr', t, span_of(t, k1, 1), lambda e, k=k1: lex(e, 'DuplicateKeywordArgumentError') and e.get('arg') == k, True))
+    if cs.bool(150):
+        t, sp20, _k = arglist('R20')
+        out.append(('R20_repeated_keyword', _k, t, sp20, lambda e: lex(e, 'DuplicateKeywordArgumentError') and e.get('arg') == 'kw0', True))
+    else:
+        out.append(('R20_repeated_keyword', 'stmt' if t.startswith('class') else 'expr', t, span_of(t, k1, 1), lambda e, k=k1: lex(e, 'DuplicateKeywordArgumentError') and e.get('arg') == k, True))
     # built from the grammar (each combination of what stands before and after the bare star is a production of its own):
     # [posonly... /] [params...] * [,]   in a def or a lambda
     lam = cs.bool(100)
